@@ -5,5 +5,5 @@ ID=$1; FILE=$2; SED=$3
 cd /repo && git diff --quiet || { echo "repo dirty"; exit 9; }
 sed -i "$SED" "/repo/$FILE"
 git -C /repo diff --stat | tail -1
-cd /verif && ./check $ID --tier quick 2>&1 | grep -v "^KNOWN" | tail -${4:-4} | cut -c1-400
+cd /verif && VERIF_SCRATCH_EVIDENCE=1 ./check $ID --tier quick 2>&1 | grep -v "^KNOWN" | tail -${4:-4} | cut -c1-400
 git -C /repo checkout -- .
